@@ -30,6 +30,9 @@ type C16Params struct {
 	Rules        NetRules `json:"rules"`
 	DeadlineMs   int      `json:"deadline_ms,omitempty"`
 	Enum         string   `json:"enum,omitempty"`
+	// KeyUpdate (DTLS 1.3 data phase, one target): the target calls UpdateKeys while everything its
+	// peer sends is lost, so that the call is blocked waiting for an ACK when the action fires
+	KeyUpdate bool `json:"key_update,omitempty"`
 }
 
 // Op is one tracked API call.
@@ -135,6 +138,10 @@ func c16Gen(r *rand.Rand, tier string, idx int) any {
 		}
 		p.Pre = []string{"", "", "", "wpast", "rpast", "bothpast"}[r.IntN(6)]
 		p.DeadlineMs = []int{0, 1, 50, 1500}[r.IntN(4)]
+		if c, okc := dataCfgByName(p.Cfg); okc && c.C.MaxVer == 13 && p.Who != "both" && r.IntN(2) == 0 {
+			p.KeyUpdate, p.Stall, p.PeerWriteErr = true, false, false
+			p.Step = 20 + r.IntN(60)
+		}
 		if r.IntN(3) == 0 {
 			p.Rules = NetRules{DropPm: 100 + r.IntN(200), DupPm: r.IntN(100), FaultsUntilIdx: 3 + r.IntN(8)}
 		}
@@ -338,6 +345,7 @@ func c16Run(rc *RunCtx, params any) {
 		}
 	}
 	established := false
+	var kuOp *Op
 	readers := map[string]*Op{}
 	if dataPhase {
 		startHs("s")
@@ -399,6 +407,20 @@ func c16Run(rc *RunCtx, params any) {
 			for _, ep := range targets {
 				socks[ep].SetStall(true)
 			}
+		}
+		if p.KeyUpdate && len(targets) == 1 {
+			ep := targets[0]
+			s.Run(func() bool { return false }, 50*time.Millisecond)
+			n.Rewrite = func(em *Emission) []byte {
+				if em.Ep == other[ep] {
+					return nil // the ACK of the KeyUpdate never arrives
+				}
+
+				return em.Data
+			}
+			kuOp = ops.start("UpdateKeys", ep, func() (int, error) {
+				return 0, conns[ep].UpdateKeys(context.Background(), dtls.KeyUpdateOptions{})
+			})
 		}
 	}
 	// arm the action
@@ -555,6 +577,26 @@ func c16Run(rc *RunCtx, params any) {
 		}
 	case "rdeadline", "wdeadline":
 		d := time.Duration(p.DeadlineMs) * time.Millisecond
+		if kuOp != nil {
+			// a write deadline interrupts a blocked UpdateKeys; a read deadline is none of its business
+			s.Run(func() bool { return kuOp.Done }, d+settle)
+			switch {
+			case p.Action == "wdeadline" && !kuOp.Done:
+				rc.Violate("deadline-ignored:UpdateKeys", "%s: UpdateKeys, blocked waiting for an ACK that cannot arrive, was not interrupted %v after a write deadline of %v set from another goroutine", kuOp.Ep, settle, d)
+				cleanup()
+
+				return
+			case p.Action == "wdeadline":
+				s.Probe("write-deadline-interrupted-UpdateKeys")
+			case p.Action == "rdeadline" && kuOp.Done && isDeadlineErr(kuOp.Err) && p.Pre == "":
+				rc.Violate("deadline-crosstalk:UpdateKeys", "%s: UpdateKeys failed with %q after a READ deadline was set; no write deadline was ever set", kuOp.Ep, kuOp.Err)
+				cleanup()
+
+				return
+			case p.Action == "rdeadline":
+				s.Probe("read-deadline-left-UpdateKeys-alone")
+			}
+		}
 		for _, ep := range targets {
 			var op *Op
 			if p.Action == "rdeadline" {
